@@ -667,6 +667,11 @@ func runC15(c *Ctx) Result {
 	c15CopiedLazy = false
 	nOps := 1 + g.d(12)
 	pendingKnown := ""
+	type c15Grave struct {
+		Path []interface{}
+		Key  string
+	}
+	var graves []c15Grave
 	var hist []string
 	holes := false
 	sample := map[string]interface{}{"doc": clip(doc, 160), "dup_keys": dup}
@@ -735,6 +740,25 @@ func runC15(c *Ctx) Result {
 		o.Any = c15Anys[g.d(len(c15Anys))]
 		if dup && o.Kind == 7 {
 			o.Kind = 8 // Interface on duplicate keys has no single defined answer
+		}
+		// revisit keys that were removed earlier (removal followed by lookup / re-insertion
+		// of the SAME key is where soft removal, the key index and lazy state meet)
+		if len(graves) > 0 && g.d(4) == 0 {
+			gr := graves[g.d(len(graves))]
+			if tv := model.at(gr.Path); tv != nil && tv.K == 'o' {
+				o.Path, o.Key = gr.Path, gr.Key
+				o.Kind = []int{9, 0, 13, 11, 9, 0}[g.d(6)]
+			}
+		}
+		if tv := model.at(o.Path); tv != nil && tv.K == 'o' {
+			switch o.Kind {
+			case 13:
+				graves = append(graves, c15Grave{o.Path, o.Key})
+			case 14:
+				if o.I >= 0 && o.I < len(tv.Obj) {
+					graves = append(graves, c15Grave{o.Path, tv.Obj[o.I].Key})
+				}
+			}
 		}
 		hist = append(hist, o.String())
 		want := applyModel(model, o, &holes)
